@@ -233,6 +233,11 @@ func execC09(c CaseC09) *Outcome {
 			}
 			other = e
 			release, parked := w.HoldPeers(0, addrs[d])
+			if a.N >= 3 {
+				// (the long run below needs a lookup that stays stuck whatever its deadline)
+				release()
+				release, parked = w.HoldPeersHard(0, addrs[d])
+			}
 			if _, err := writeAny(ctx, st[0][d], c.DBs[d].Type, 0, 3, cnt); err != nil {
 				release()
 				return fail("action %d: write failed: %v", ai, err)
@@ -248,6 +253,26 @@ func execC09(c CaseC09) *Outcome {
 			// let the second write's announcement go out (it is not held), then release the first
 			world.WaitFor(func() bool { return w.LogLen() > sent }, 5*time.Second)
 			time.Sleep(500 * time.Microsecond)
+			if a.N >= 3 {
+				// a longer run of writes on the other database while the first database's announcement is still
+				// held (a slow topic): more than any event queue between the two holds
+				var werr error
+				gerr := guarded(fmt.Sprintf("a run of 24 writes on database %d while an announcement of database %d is held in its peer lookup", e, d), func() {
+					for q := 0; q < 24 && werr == nil; q++ {
+						_, werr = writeAny(ctx, st[0][e], c.DBs[e].Type, q%3, 3, cnt+q)
+					}
+				})
+				cnt += 24
+				if gerr != nil {
+					release()
+					return fail("action %d: %v", ai, gerr)
+				}
+				if werr != nil {
+					release()
+					return fail("action %d: write failed: %v", ai, werr)
+				}
+				o.Labels = append(o.Labels, "long-run-while-other-announcement-held")
+			}
 			release()
 		case "exchange2":
 			// a returning peer hands over its heads of two databases back to back (head exchange on the direct
